@@ -390,7 +390,10 @@ class FundamentalShock(Harness):
 
         def on_event(kind, agent, p):
             if kind == "hook:market-before":
-                before[p.market_id, p.get_time()] = p.get_fundamental_price()
+                # the first before-step occasion of a step: no shock of this step has fired yet; the values of all
+                # markets for the new time are read here (the probe is listed before the shocks)
+                for m_ in rn.RUN.sim.markets:
+                    before.setdefault((m_.market_id, m_.get_time()), m_.get_fundamental_price())
             elif kind == "log-direct" and isinstance(p, MarketStepBeginLog):
                 after[p.market.market_id, p.market.get_time()] = p.market.get_fundamental_price()
         ctx = rn.make_run(g, st, {"acts": ["none"]}, on_event=on_event)
@@ -445,6 +448,9 @@ class MistakeShock(Harness):
                     for target in ("M0", "M1"):
                         out.append({"where": where, "k": k, "sign": sign, "enabled": enabled, "target": target,
                                     "A": 2 if tier == "quick" else 3})
+        # a high-frequency agent next to one normal agent (either may be the first on the target market)
+        for target in ("M0", "M1"):
+            out.append({"where": 1, "k": 0, "sign": "-", "enabled": True, "target": target, "A": 1, "hft": 1})
         # orders at the trigger time and in the step after it (a shock not used at its time stays unused)
         for where, k in ((0, 0), (1, 0)):
             for target in ("M0", "M1"):
@@ -459,7 +465,7 @@ class MistakeShock(Harness):
         shock = {"class": "OrderMistakeShock", "target": case["target"], "triggerTime": case["k"],
                  "priceChangeRate": {"+": 0.05, "-": -0.05, "0": 0.0}[case["sign"]], "orderVolume": 7,
                  "orderTimeLength": 2, "enabled": case["enabled"]}
-        st = rn.base_settings(n_agents=case["A"], sessions=sessions, markets=markets,
+        st = rn.base_settings(n_agents=case["A"], n_hft=case.get("hft", 0), sessions=sessions, markets=markets,
                               extra={"SHOCK": shock, "PROBE": {"class": "ProbeAll"}})
         mp_at = {}
 
